@@ -1,6 +1,6 @@
 SPECIFICATION TSpec
 CONSTANTS
-  Contents = {"X", "Y", "E", "XR", "XS", "X6", "Z6", "O6", "XE"}
+  Contents = {"X", "Y", "E", "XR", "XS", "X6", "Z6", "O6", "XE", "V4", "R6", "O6R", "O6S"}
   EmptyContents = {"E"}
   MaxPol = 1000
   MaxEv = 100000
